@@ -524,10 +524,10 @@ def run(ck):
     ck.log((out.strip() or err.strip())[-300:])
     translator_ok = rc == 0
     if translator_ok:
-        proof_ok, failing = ck.proof_stage('MpVerif.C04.Props', 'MpVerif/C04/Props.lean', 'C04_', ['MpVerif/C04/*.lean', 'MpVerif/Gen/ValCvt.lean'], expect_min=66)
+        proof_ok, failing = ck.proof_stage('MpVerif.C04.Props', 'MpVerif/C04/Props.lean', 'C04_', ['MpVerif/C04/*.lean', 'MpVerif/Gen/ValCvt.lean'], expect_min=68)
     else:
         proof_ok, failing = False, ['translator: ' + (out + err).strip()[-400:]]
-        ck.cov.update({'obligations': 66, 'discharged': 0, 'checker_cmd': 'translators/gen_valcvt.py failed: a construct of the anchored code is no longer understood'})
+        ck.cov.update({'obligations': 68, 'discharged': 0, 'checker_cmd': 'translators/gen_valcvt.py failed: a construct of the anchored code is no longer understood'})
     ck.log('proof stage: ok=%s failing=%s' % (proof_ok, failing[:8]))
     if ck.tier == 'thorough' and proof_ok:
         bad = ck.leanchecker(['MpVerif.C04.Props'])
